@@ -6,6 +6,8 @@ fn usage() -> ! {
 }
 
 fn main() {
+	// anyhow captures a backtrace per error when RUST_BACKTRACE is set: slow and serialised by a global lock
+	std::env::set_var("RUST_LIB_BACKTRACE", "0");
 	let args: Vec<String> = std::env::args().skip(1).collect();
 	if args.is_empty() {
 		usage();
